@@ -120,7 +120,7 @@ fn fnv64(bs: &[u8]) -> u64 {
     h
 }
 
-/// histories: `H <id> <mode: file|dest|dir>`, then `G <hex|NONE>`, `P <hex|->`, `D`, `R`
+/// histories: `H <id> <mode: file|dest|dir|dirlink>`, then `G <hex|NONE>`, `P <hex|->`, `D`, `R`
 fn fs_main(dir: &str) {
     colored::control::set_override(false);
     std::panic::set_hook(Box::new(|_| {}));
@@ -144,8 +144,23 @@ fn fs_main(dir: &str) {
                 prefix.clear();
                 k = 0;
                 let _ = std::fs::remove_dir_all(&work);
-                std::fs::create_dir_all(format!("{}/sub", work)).unwrap();
+                let linked = format!("{}/linked", dir);
+                let _ = std::fs::remove_dir_all(&linked);
+                if mode == "dirlink" {
+                    // the grammar directory is reached through a symbolic link (a directory shared between crates)
+                    std::fs::create_dir_all(&work).unwrap();
+                    std::fs::create_dir_all(&linked).unwrap();
+                    std::os::unix::fs::symlink(&linked, format!("{}/sub", work)).unwrap();
+                } else {
+                    std::fs::create_dir_all(format!("{}/sub", work)).unwrap();
+                }
                 std::fs::create_dir_all(format!("{}/out", work)).unwrap();
+                if mode.starts_with("dir") {
+                    // bystanders the directory walk must ignore
+                    std::fs::write(format!("{}/sub/notes.txt", work), "not a grammar").unwrap();
+                    std::fs::create_dir_all(format!("{}/sub/empty.ebnf.d", work)).unwrap();
+                    std::fs::write(format!("{}/README", work), "x").unwrap();
+                }
             }
             "G" => {
                 if p[1] == "NONE" {
@@ -166,7 +181,7 @@ fn fs_main(dir: &str) {
                 let before = std::fs::read(&dst).ok();
                 let r = catch_unwind(AssertUnwindSafe(|| {
                     let c = match mode.as_str() {
-                        "dir" => peginator_codegen::Compile::directory(&work),
+                        "dir" | "dirlink" => peginator_codegen::Compile::directory(&work),
                         "dest" => peginator_codegen::Compile::file(&src).destination(&dst),
                         _ => peginator_codegen::Compile::file(&src),
                     };
@@ -192,6 +207,7 @@ fn fs_main(dir: &str) {
         }
     }
     let _ = std::fs::remove_dir_all(&work);
+    let _ = std::fs::remove_dir_all(format!("{}/linked", dir));
 }
 
 fn main() {
